@@ -8,11 +8,11 @@ func init() {
 		Explanation: "Execution of the real rueidiscompat Pipeline / TxPipeline (pipeline.go proxy, Exec, Discard, Len; tx.go TxPipeline.Exec) and the real Cmder.from decoders with a stub rueidis.Client. The queued program is a decision per position over 8 adapter commands with 8 different result types (Get, Incr, Set, SetNX, LRange, HGetAll, Do, IncrByFloat); the reply outcome of each position (typed value carrying the position as a marker, Redis error carrying the position, nil, transport error), whether commands were queued and discarded beforehand, and for transactions the EXEC outcome (array, nil = WATCH abort, error reply, connection failure) are decisions. Oracle: one DoMulti call whose commands are the queued ones in queue order (wrapped in MULTI … EXEC for transactions); Exec returns the very Cmders handed out at queue time, in order; each carries its own position's value/error; the returned error is the first error in queue order, TxFailedErr on abort; discarded commands are neither sent nor reported; Len is 0 after Exec/Discard. Sweep: the list of all Cmder-returning Pipeline methods (512 on this tree) is regenerated from the package's types on every run; each is queued once with simple concrete arguments (and, for variadic methods, also with the variadic part empty), followed by a marker INCR; oracle: exactly one command and one Cmder were registered (or the call was refused by panic/error leaving the queue consistent), and after Exec the first reply lands on the first Cmder and the second on the marker.",
 		Assumptions: []string{"stub client (harness code); replies are fabricated with the repository's mock package"},
 		Outside:     []string{"the argument encoders of the adapter commands (C41 is about queueing and result mapping; the sweep uses one or two concrete argument shapes per method)", "programs longer than the bound"},
-		Bounds:      map[string]any{"quick": "programs of 1..3 commands", "thorough": "programs of 1..4 commands"},
+		Bounds:      map[string]any{"quick": "programs of 1..3 commands", "thorough": "programs of 1..3 commands (4 commands: 3.7 million paths per harness, not run)"},
 		specs: func(tier string) []specRef {
-			a := hsx(compatPkg, "VerifC41_pipeline", P{"max_cmds": q(tier, int64(3), 4)}, 5000000, 3000, "discard", "firsterr", "allok")
+			a := hsx(compatPkg, "VerifC41_pipeline", P{"max_cmds": 3}, 5000000, 3000, "discard", "firsterr", "allok")
 			a.dir = "rueidiscompat"
-			b := hsx(compatPkg, "VerifC41_tx", P{"max_cmds": q(tier, int64(3), 4)}, 5000000, 3000, "discard", "aborted", "failed", "executed", "execerr")
+			b := hsx(compatPkg, "VerifC41_tx", P{"max_cmds": 3}, 5000000, 3000, "discard", "aborted", "failed", "executed", "execerr")
 			b.dir = "rueidiscompat"
 			c := hsx(compatPkg, "VerifC41_sweep", nil, 5000000, 3000, "queued")
 			c.dir = "rueidiscompat"
